@@ -378,8 +378,7 @@ func (fc *FCtx) evalBuiltin(name string, e *ast.CallExpr, st *State) []Val {
 			}
 			oos("len of %s", x.S.Name)
 		case KMap:
-			fn := "card_" + x.S.Name
-			fc.U.Fun(fn, []*Sort{x.S}, SInt)
+			fn := fc.mapCard(x.S)
 			st.assume(fmt.Sprintf("(>= %s 0)", app(fn, x.T)))
 			return []Val{{T: app(fn, x.T), S: SInt, GoT: intT}}
 		}
@@ -969,4 +968,22 @@ var extAliases = map[string]struct {
 	"binary.Varint#1": {"encoding/binary.Varint", "Int"},
 	"merkle.HashFromByteSlices": {"github.com/cometbft/cometbft/crypto/merkle.HashFromByteSlices", "Bz"},
 	"ValidatorI.GetTokens": {"(github.com/cosmos/cosmos-sdk/x/staking/types.ValidatorI).GetTokens", "Int"},
+}
+
+// mapCard declares the cardinality function of a map sort with the point-update axioms (mathematics of
+// finite maps: inserting a fresh key adds one, overwriting adds nothing, the empty map has none).
+func (fc *FCtx) mapCard(ms *Sort) string {
+	fn := "card_" + ms.Name
+	if fc.U.declared["f:"+fn] {
+		return fn
+	}
+	fc.U.Fun(fn, []*Sort{ms}, SInt)
+	k, v := ms.Key.Name, ms.Elem.Name
+	fc.U.Axiom("finite-map cardinality ("+ms.Name+")", fmt.Sprintf(
+		"(and (forall ((d (Array %s Bool)) (vl (Array %s %s)) (k %s) (x %s)) (! (= (%s (mk_%s (store d k true) (store vl k x))) (+ (%s (mk_%s d vl)) (ite (select d k) 0 1))) :pattern ((mk_%s (store d k true) (store vl k x))))) (forall ((vl (Array %s %s))) (! (= (%s (mk_%s ((as const (Array %s Bool)) false) vl)) 0) :pattern ((mk_%s ((as const (Array %s Bool)) false) vl)))) (forall ((m %s)) (! (>= (%s m) 0) :pattern ((%s m)))))",
+		k, k, v, k, v, fn, ms.Name, fn, ms.Name, ms.Name, k, v, fn, ms.Name, k, ms.Name, k, ms.Name, fn, fn))
+	fc.U.Axiom("finite-map cardinality, update of a map value ("+ms.Name+")", fmt.Sprintf(
+		"(forall ((m %s) (k %s) (x %s)) (! (= (%s (mk_%s (store (dom_%s m) k true) (store (val_%s m) k x))) (+ (%s m) (ite (select (dom_%s m) k) 0 1))) :pattern ((mk_%s (store (dom_%s m) k true) (store (val_%s m) k x)))))",
+		ms.Name, k, v, fn, ms.Name, ms.Name, ms.Name, fn, ms.Name, ms.Name, ms.Name, ms.Name))
+	return fn
 }
